@@ -96,6 +96,9 @@ def gen_case(rng, cid):
             dfn["boundary_width"] = wopt
             dfn["boundary"] = opt(gen.RULES)
             dfn["fill_value"] = opt([-3, 0, 2, 7])
+            for k_ in ("boundary", "fill_value"):
+                if dfn[k_]["k"] != "none" and call[k_]["k"] == "none" and rng.random() < 0.15:
+                    call[k_] = {"k": "xnone"}            # None given explicitly at call time: the grid's own setting applies
             if rng.random() < 0.15 and ws:
                 # call-time widths override the definition-time ones
                 call["boundary_width"] = {"k": "m", "v": [[d, rng.randint(0, 2), rng.randint(0, 2)] for d, _, _ in ws]}
@@ -233,7 +236,9 @@ def execute(case):
         def kw_of(o, allow_widths):
             kw = {}
             for k in ("boundary", "fill_value"):
-                if o[k]["k"] != "none":
+                if o[k]["k"] == "xnone":
+                    kw[k] = None
+                elif o[k]["k"] != "none":
                     kw[k] = model.to_py(o[k], nm)
             if allow_widths and o["boundary_width"]["k"] != "none":
                 kw["boundary_width"] = {d: (lo, hi) for d, lo, hi in o["boundary_width"]["v"]}
